@@ -274,8 +274,20 @@ func solveObligation(o *Obligation, reg *Registry, cfg *SolverCfg) {
 		}
 	}
 	o.Status = "discharged"
-	if vacuityProbe {
-		probeVacuity(o, reg, cfg)
+	if vacuityProbe || cfg.CrossCheck {
+		vac := probeVacuity(o, reg, cfg)
+		// thorough tier: an obligation that stems from a contract clause and all of whose path instances have
+		// contradictory premises has been "proved" from nothing (an inconsistent assumption upstream): not accepted.
+		// (For "this panic / this site is unreachable" obligations contradictory premises are the proof itself.)
+		if vac && cfg.CrossCheck {
+			switch o.Kind {
+			case "post", "assert", "inv-init", "inv-keep", "lemma":
+				if o.Clause == nil || o.Clause.Kind != "forbid" {
+					o.Status = "undecided"
+					o.Output += " | vacuity: every path instance of this obligation has unsatisfiable premises"
+				}
+			}
+		}
 	}
 }
 
@@ -283,7 +295,7 @@ func solveObligation(o *Obligation, reg *Registry, cfg *SolverCfg) {
 // path instances satisfiable? (an infeasible path is normal; an obligation with only infeasible paths is suspicious)
 var vacuityProbe bool
 
-func probeVacuity(o *Obligation, reg *Registry, cfg *SolverCfg) {
+func probeVacuity(o *Obligation, reg *Registry, cfg *SolverCfg) bool {
 	var b strings.Builder
 	b.WriteString(reg.prelude())
 	for _, in := range o.Instances {
@@ -295,7 +307,7 @@ func probeVacuity(o *Obligation, reg *Registry, cfg *SolverCfg) {
 	}
 	file := filepath.Join(cfg.OutDir, sanitize(o.Name)+".vacuity.smt2")
 	if os.WriteFile(file, []byte(b.String()), 0o644) != nil {
-		return
+		return false
 	}
 	ans, _, _ := runSolver(solverCmds[0], file, 3)
 	all := len(ans) == len(o.Instances) && len(ans) > 0
@@ -304,9 +316,10 @@ func probeVacuity(o *Obligation, reg *Registry, cfg *SolverCfg) {
 			all = false
 		}
 	}
-	if all {
+	if all && vacuityProbe {
 		fmt.Printf("VACUOUS? %s (%d instances, all premises unsat) %s\n", o.Name, len(o.Instances), file)
 	}
+	return all
 }
 
 func firstLines(s string, n int) string {
